@@ -481,7 +481,20 @@ func (p *c15) Run(rec *core.Recorder, seed uint64, idx int, tier string) {
 				src = ent.version
 			}
 			var err error
-			switch r.Intn(3) {
+			switch r.Intn(4) {
+			case 3:
+				// a template that another engine loaded from its own timestamp-aware loader under another name, registered here
+				// as a pre-built template: it is the source registered under this name, whatever auto-reload says
+				hubLoader := &c15TsMem{c15Mem{m: map[string]c15Entry{"hub_source": {src, clock - 50}}, loads: map[string]int{}}}
+				hub := twig.New()
+				hub.RegisterLoader(hubLoader)
+				var t *twig.Template
+				t, err = hub.Load("hub_source")
+				if err == nil {
+					e.RegisterTemplate(name, t)
+				}
+				rec.Count("loaded-templates-registered-under-another-name", 1)
+				step("RegisterTemplate(" + name + ", template loaded elsewhere as hub_source: " + src + ")")
 			case 0:
 				err = e.RegisterString(name, src)
 				step("RegisterString(" + name + ", " + src + ")")
